@@ -23,7 +23,7 @@ import (
 // independent deep copy with the same aliasing, nil records and foreign types.
 type built struct {
 	m     *dns.Msg
-	kinds [3][]string // per slot: a | f | n | o<id> | w | x<id>
+	kinds [3][]string // per slot: a | f | s | n | o<id> | w | x<id>
 	skips bool        // holds a record whose library packing skips bytes without writing them (16-byte non-IPv4 in an A/L32/gateway)
 	pure  bool        // only non-nil records of library types with library-owned nested values
 	prof  string
@@ -389,8 +389,8 @@ func (g *bld) put(sec int, rr dns.RR, kind string) {
 		g.b.m.Extra = append(g.b.m.Extra, rr)
 	}
 	g.b.kinds[sec] = append(g.b.kinds[sec], kind)
-	if kind == "f" || kind == "n" {
-		g.b.pure = false
+	if kind == "f" || kind == "n" || kind == "s" {
+		g.b.pure = false // outside what the packer admits: the fallback keeps the library's semantics, OPT write included
 	}
 }
 
@@ -529,23 +529,52 @@ func build(seed uint64, profile string) *built {
 		}
 	case "skipwrite":
 		// records whose library packing ADVANCES the offset without writing every byte it
-		// accounts for: a *dns.A / L32 / gateway holding a 16-byte address that is not IPv4
+		// accounts for — a *dns.A / L32 / IPv4-typed gateway holding a 16-byte address that is
+		// not IPv4 (kind "s": a library record the pooled packer refuses) — and their harmless
+		// look-alikes (IPv4-mapped 16-byte address, IPv6-typed gateway)
 		m.Question = []dns.Question{{Name: "skip.example.", Qtype: dns.TypeA, Qclass: dns.ClassINET}}
 		m.Response = true
-		g.b.skips = true
 		v6 := net.ParseIP("2001:db8::1")
+		mapped := net.ParseIP("192.0.2.33") // 16 bytes, IPv4-mapped
+		h := func(t uint16) dns.RR_Header {
+			return dns.RR_Header{Name: "skip.example.", Rrtype: t, Class: dns.ClassINET, Ttl: 60}
+		}
 		for i := 0; i < 1+r.Intn(3); i++ {
-			switch r.Intn(4) {
+			harmless := r.Chance(1, 4)
+			k := "s"
+			if harmless {
+				k = "a"
+			} else {
+				g.b.skips = true
+			}
+			addr := v6
+			if harmless {
+				addr = mapped
+			}
+			switch r.Intn(5) {
 			case 0, 1:
-				g.put(r.Intn(3), &dns.A{Hdr: dns.RR_Header{Name: "skip.example.", Rrtype: dns.TypeA, Class: dns.ClassINET, Ttl: 60}, A: v6}, "a")
+				g.put(r.Intn(3), &dns.A{Hdr: h(dns.TypeA), A: addr}, k)
 			case 2:
-				g.put(r.Intn(3), &dns.L32{Hdr: dns.RR_Header{Name: "skip.example.", Rrtype: dns.TypeL32, Class: dns.ClassINET, Ttl: 60}, Preference: 10, Locator32: v6}, "a")
+				g.put(r.Intn(3), &dns.L32{Hdr: h(dns.TypeL32), Preference: 10, Locator32: addr}, k)
+			case 3:
+				if harmless {
+					g.put(r.Intn(3), &dns.AMTRELAY{Hdr: h(dns.TypeAMTRELAY), Precedence: 1, GatewayType: dns.AMTRELAYIPv6, GatewayAddr: v6}, "a")
+				} else {
+					g.put(r.Intn(3), &dns.AMTRELAY{Hdr: h(dns.TypeAMTRELAY), Precedence: 1, GatewayType: dns.AMTRELAYIPv4, GatewayAddr: v6}, "s")
+				}
 			default:
-				g.put(r.Intn(3), &dns.AMTRELAY{Hdr: dns.RR_Header{Name: "skip.example.", Rrtype: dns.TypeAMTRELAY, Class: dns.ClassINET, Ttl: 60}, Precedence: 1, GatewayType: dns.IPSECGatewayIPv4, GatewayAddr: v6}, "a")
+				if harmless {
+					g.put(r.Intn(3), &dns.IPSECKEY{Hdr: h(dns.TypeIPSECKEY), Precedence: 1, GatewayType: dns.IPSECGatewayIPv6, Algorithm: 2, GatewayAddr: v6, PublicKey: b64(r, 32)}, "a")
+				} else {
+					g.put(r.Intn(3), &dns.IPSECKEY{Hdr: h(dns.TypeIPSECKEY), Precedence: 1, GatewayType: dns.IPSECGatewayIPv4, Algorithm: 2, GatewayAddr: v6, PublicKey: b64(r, 32)}, "s")
+				}
 			}
 		}
 		if r.Chance(1, 2) {
 			g.put(0, g.rr(g.name()), "a")
+		}
+		if r.Chance(1, 3) {
+			g.newOPT(2)
 		}
 	case "cdn":
 		// many records under one long owner name: far past the pooled buffer uncompressed,
